@@ -8,6 +8,7 @@ from ..core import FUNC, call_attr, calls_in, const, dotted, is_const, kwarg, no
 from .c09 import waiter_rule, _stored_in_cancelled_table
 
 EXPLANATION = [
+    'C16.one-shot: no name bound to a generator expression or to filter() / map() / zip() / reversed() / enumerate() is read in more than one consuming position or inside a loop that evaluates it repeatedly: such an iterator is empty after its first walk.',
     'C16.sink-wrappers: every class that installs itself as the packet sink of a transport source and forwards packets to a sink of its own also has on_transport_lost and passes it on (BaseSource only notifies sinks that have the method).',
     'C16.exception-payloads: `future.set_exception(x)` is never given a status / number, and every emit of an event that has a bound `set_exception` registered directly as listener passes an exception object built in that function.',
     'C16.iter-mutation: no loop over a live dict view (`.values()` / `.items()` / `.keys()` of an attribute table) has a body that, through the methods it calls (resolved by name, three levels, local aliases of the table followed), inserts into or removes from the same table; iterating a copy or a sub-table detached with pop() first is accepted.',
@@ -554,7 +555,13 @@ def sink_wrappers(ctx):
     R.check(n >= 1, rule, 'bumble.transport | sink wrappers', f'{n} classes register themselves as a source\'s sink', 'no sink wrapper found (anchor moved)')
 
 
+def one_shot_rule(ctx):
+    from ..generic_rules import one_shot_iterators
+    one_shot_iterators(ctx, 'C16.one-shot', ['bumble.device', 'bumble.host', 'bumble.gatt_server', 'bumble.gatt_client', 'bumble.smp'])
+
+
 RULES = [
+    ('C16.one-shot', one_shot_rule),
     ('C16.sink-wrappers', sink_wrappers),
     ('C16.exception-payloads', exception_payloads_rule),
     ('C16.iter-mutation', iter_mutation_rule),
